@@ -17,6 +17,29 @@ impl Check for C01 {
         "C01"
     }
 
+    fn declared_probes(&self) -> Vec<&'static str> {
+        vec![
+            "fault.capacity-shrink",
+            "fault.operand-starve",
+            "fault.pause-rebuild-resume",
+            "fault.step-budget-cut",
+            "probe.deep-nesting-fully-unwrapped",
+            "probe.deep-nesting-run",
+            "probe.deep-nesting>200",
+            "probe.fatal-error",
+            "probe.long-run",
+            "probe.long-run-of-millions-of-steps",
+            "probe.long-run-output>64KiB",
+            "probe.long-run-without-exact-prediction",
+            "probe.model-allowed-set-wider-than-one",
+            "probe.real-loop-fatal",
+            "probe.real-loop-runs",
+            "probe.recoverable-error",
+            "probe.skip-equals-noop-compared",
+            "probe.whole-vs-chunked-evaluation",
+        ]
+    }
+
     fn rule(&self) -> String {
         "seeded Push programs (<= 40 top-level items, nesting <= 6 (plus 65..=1200 wrapping blocks in 1/200 of the runs), all instruction variants, boundary literal pools, \
          0-8 initial values per stack, 0-10 inputs bound in seeded order, swarm-weighted instruction families, \
